@@ -245,6 +245,8 @@ def run_smoothing(job):
             if not (whole <= SMOOTH_TOL):
                 part = "edges-only" if interior <= SMOOTH_TOL else "interior"
                 tags = (["even-num_points"] if npts % 2 == 0 else []) + (["order=1"] if po == 1 else [])
+                if sm == "modsinc" and po > npts:
+                    tags = [f"num_points={npts}:degree={po}"]          # degree above the half-width: each combination is its own case
                 fails.append((f"smooth:{sm}:{name}-changed:{part}:{'+'.join(tags) if tags else f'num_points={npts}:order={po}'}", "_smooth_phase",
                               f"{sm}(num_points={npts}, polynomial_order={po}) changes {name} data of {n} points by {whole:.3g} (interior, {k} points from either end: {interior:.3g}) > {SMOOTH_TOL}",
                               src + f"assert np.max(np.abs(out - data)) <= {SMOOTH_TOL}, np.max(np.abs(out - data))\n"))
@@ -408,6 +410,8 @@ def main(a):
     sm_npos = [(2, 1), (3, 1), (3, 2), (4, 2), (4, 3), (5, 2), (5, 3), (5, 4), (7, 2), (7, 4), (7, 6), (9, 2), (9, 4), (15, 2), (15, 4), (15, 6), (21, 8), (8, 4), (9, 1), (9, 3)]
     for n in ([71] if quick else [36, 71, 141, 351]):       # num_points < n/6 so that an interior (>= 2 num_points from either end) exists
         jobs.append(("run_smoothing", (n, [(sm, npts, po) for sm in SMOOTHINGS[1:] for npts, po in sm_npos if npts < n / 6])))
+        # the modified-sinc kernel takes its degree (2, 4, ..., 10) independently of the half-width: degrees above the half-width too
+        jobs.append(("run_smoothing", (n, [("modsinc", npts, po) for npts, po in ((2, 4), (3, 4), (3, 6), (4, 6), (5, 8), (6, 10), (4, 8), (3, 2), (2, 2)) if npts < n / 6])))
     # Whittaker-Henderson penalty matrix against its definition, every size from the smallest accepted one
     for order in range(1, 6):
         jobs.append(("run_whithend_matrix", (order, list(range(order, 25 if quick else 80)))))
